@@ -76,17 +76,19 @@ SubSeqFrom(s, i) == IF i > Len(s) THEN <<>> ELSE SubSeq(s, i, Len(s))
      k = "M": id in s, for mark/ and generated/ tags
      k = "R": stream is in tag t         (tag:t)             main-query tag reference
      k = "N": stream is not in tag t     (-tag:t)
+     k = "Q": some stream with cached converter output has the same server port  (@sub:cdata:"CONV:" sport:@sub:sport@)
+              payload filter inside a sub-query: the answer for one stream depends on the converter output of others
      k = "S": some stream of tag t has the same server port  (@sub:tag:t sport:@sub:sport@)   sub-query tag reference
    s is the id list as written (mark definitions are compared as text by the manager); t = "twice" for a mark whose
    definition is not a plain list (the list written twice, a conjunction: id:0,1 id:0,1) - mark_add has to extend
    such a definition so that it still denotes the marked streams. *)
 Def(k, n, s, t) == [k |-> k, n |-> n, s |-> s, t |-> t]
 Refs(d)      == IF d.k \in {"R", "N", "S"} THEN {d.t} ELSE {}
-FeatSub(d)   == d.k = "S"                     \* SubQueryFeatures # 0: invalidated completely (manager.go:605)
+FeatSub(d)   == d.k \in {"S", "Q"}                     \* SubQueryFeatures # 0: invalidated completely (manager.go:605)
 FeatIdOnly(d) == d.k \in {"I", "M"}            \* MainFeatures &^ FeatureFilterID = 0   (manager.go:608)
 FeatData(d)   == d.k \in {"D", "L", "C", "B", "E"}            \* data | absolute time                  (manager.go:614)
 \* the kinds whose MainFeatures contain FeatureFilterData (payload and byte-count filters): reopened after conversions
-FeatPayload(d) == d.k \in {"D", "C", "B", "E"}
+FeatPayload(d) == d.k \in {"D", "C", "B", "E", "Q"}
 FeatConvOK(d) == d.k \in {"P", "L", "I", "M"}  \* attachConverterToTag: no data filter, no tag reference
 IsMarkName(n) == \E i \in 1 .. Len(n) : SubSeq(n, 1, i) \in {"mark/", "generated/"}
 
@@ -104,6 +106,7 @@ Eval(d, id, conn, ver, tdM, vis, cvs) ==
       [] d.k = "R" -> id \in tdM[d.t]
       [] d.k = "N" -> id \notin tdM[d.t]
       [] d.k = "S" -> \E e \in vis : e[1] \in tdM[d.t] /\ Port[e[2]] = Port[conn]
+      [] d.k = "Q" -> \E e \in vis : Port[e[2]] = Port[conn] /\ \E c \in DOMAIN cache : \E x \in cache[c] : x[1] = e[1]
 
 \* the data versions the cached converter outputs of a stream were computed from (the caches are global, not part of a
 \* job's snapshot: a tagging job reads them as they are while it computes)
@@ -438,7 +441,9 @@ ConvDone(pick) ==
         \* streams invalidated while the job ran are invalidated again (the job may have cached their old data)
         ic == InvalidateConv(toConv, cache, during.inv)
         tg1 == Inherit([t \in DOMAIN tags |->
-                    IF FeatPayload(tags[t].def) THEN [tags[t] EXCEPT !.U = @ \cup conv] ELSE tags[t]], allS)
+                    IF ~FeatPayload(tags[t].def) THEN tags[t]
+                    ELSE IF FeatSub(tags[t].def) /\ conv # {} THEN [tags[t] EXCEPT !.U = allS]    \* (new output may change the answer for any stream)
+                    ELSE [tags[t] EXCEPT !.U = @ \cup conv]], allS)
         du1 == [during EXCEPT !.upd = @ \cup conv, !.inv = {}]
         fl1 == [flags EXCEPT !.conv = FALSE]
         b0 == Bundle(tg1, fl1, [jobs EXCEPT !.conv = NoJob("conv")], use, du1, ic[1])
@@ -465,7 +470,7 @@ Reaches(tg, from, to) ==          \* does tag `from` (transitively) reference `t
     \/ to \in Refs(tg[from].def)
     \/ \E r \in Refs(tg[from].def) \cap DOMAIN tg : Reaches(tg, r, to)
 
-DefValid(d) == d.k \in {"P", "D", "C", "L", "B", "E", "I", "M", "R", "N", "S"}     \* the query parses and is allowed in a tag
+DefValid(d) == d.k \in {"P", "D", "C", "L", "B", "E", "I", "M", "R", "N", "S", "Q"}     \* the query parses and is allowed in a tag
 AddTagOK(name, d) ==
     /\ DefValid(d)
     /\ name \notin DOMAIN tags
@@ -694,7 +699,9 @@ ViewConvert(v, s, c, pick) ==
        ELSE LET ver == (CHOOSE e \in Visible(views[v].idx) : e[1] = s)[3]
                 hit == {s} \cap allS
                 tg1 == Inherit([t \in DOMAIN tags |->
-                            IF FeatPayload(tags[t].def) THEN [tags[t] EXCEPT !.U = @ \cup hit] ELSE tags[t]], allS)
+                            IF ~FeatPayload(tags[t].def) THEN tags[t]
+                            ELSE IF FeatSub(tags[t].def) /\ hit # {} THEN [tags[t] EXCEPT !.U = allS]
+                            ELSE [tags[t] EXCEPT !.U = @ \cup hit]], allS)
                 b0 == Bundle(tg1, flags, jobs, use, [during EXCEPT !.upd = @ \cup hit], toConv)
             IN /\ cache' = [cache EXCEPT ![c] = @ \cup {<<s, ver>>}]
                /\ pick \in TagPicks(tg1, flags)
